@@ -87,7 +87,7 @@ def factory(sc):
         cfg.setdefault("blackout_from", 0.045)
     else:
         cfg.setdefault("idle", 20.0)
-    kw = {"max_steps": 400, "horizon": 100.0, "deviations": tuple(sc.get("dev", ("drop", "dup", "duplate", "delay", "late")))}
+    kw = {"max_steps": 400, "horizon": 100.0, "deviations": tuple(sc.get("dev", ("drop", "dup", "duplate", "delay", "late", "hold")))}
     return cfg, SCRIPTS[name], [TimerMonitor()], kw, goal
 
 
